@@ -52,6 +52,8 @@ TRUSTED = [
     "MonitoredSet.add / _add_item",
     "the numeric encoding of the declared semantics, computed from the real descriptor classes on every run "
     "(issubclass, get_inverse(), TransitiveProperty, Role) by harness/props/_pd.py",
+    "second tie: harness/translate/c15_translate.py (Python AST -> rule table; strict, normalising) - trusted to read the "
+    "statement shapes it accepts correctly; the contents of super_relations / inverse_domain_and_field stay hand-modelled",
     "this correspondence harness (random histories + permutations through the real API in isolated worker "
     "processes) and the S-expression driver",
 ]
@@ -80,7 +82,8 @@ ASSUMPTIONS = [
 RULE = ("random well-typed histories (1..8 assertions quick, ..12 thorough) of single-valued assignment, append/add,"
         " container assignment (collection or bare element) over schemas U and D with 5..11 objects incl. role "
         "takers, self loops, cycles and diamonds in transitive relations; each history also in reversed and random "
-        "permuted order; non-trivial = at least two relations were inferred beyond the asserted ones; distinct by "
+        "permuted order; instances created by ONE constructor call that assigns several managed fields (also stated "
+        "by plain writes afterwards, and with the calls first); non-trivial = at least two relations were inferred beyond the asserted ones; distinct by "
         "case text")
 
 
